@@ -393,6 +393,15 @@ func (p *probeBackend) idx(c *broker.Client) int {
 	return i
 }
 
+// allClients returns every broker.Client the probe has seen, by connection index.
+func (p *probeBackend) allClients() map[int]*broker.Client {
+	out := map[int]*broker.Client{}
+	for i, c := range p.byIdx {
+		out[i] = c
+	}
+	return out
+}
+
 // enter records the call, applies the gate and the fault plan.
 func (p *probeBackend) enter(call string, c *broker.Client, e *Ev) (int, error) {
 	w := p.w
